@@ -312,6 +312,30 @@ pub fn run(ctx: &Ctx) -> (Stats, Report) {
     st.exhaustive_sections.push("all dates x critical whole-second times (4 in quick, 11 in thorough) x 24 trunc/round units; all dates x last_day_of_month, month/interval offsets, differences, mixed comparisons".into());
     st.section("all_dates_shared_operations", &mut mark);
 
+    // every second of a few days before, at and after 1970 x 24 trunc / round units
+    {
+        let days: Vec<i32> = vec![c.first, c.lookup(1600, 2, 29).unwrap(), c.lookup(1969, 7, 20).unwrap(), -1, 0, c.lookup(2024, 12, 30).unwrap(), c.last - 1];
+        let dref = &days;
+        let s = par_sweep(days.len() as u64 * 86_400, 2048, |range, st| {
+            for k in range {
+                let (n, t) = (dref[(k / 86_400) as usize], (k % 86_400) as i64 * 1_000_000);
+                for u in UNITS {
+                    for round in [false, true] {
+                        st.evaluations += 1;
+                        st.nontrivial_enum += 1;
+                        if let Err(m) = check_unit(round, u, n, t) {
+                            st.fail(k, Case::new(P, "unit", vec![round as i128, u.index() as i128, n as i128, t as i128], vec![]), m);
+                            return;
+                        }
+                    }
+                }
+            }
+        });
+        st.merge(s);
+    }
+    st.exhaustive_sections.push("every second of seven days (range ends, before / at / after 1970) x 24 trunc / round units through Timestamp and OracleDate".into());
+    st.section("every_second_of_sampled_days", &mut mark);
+
     // random pairs for the mixed comparisons
     let tp = pools::ts_pool(seed, if ctx.thorough { 3000 } else { 500 });
     let dp = pools::date_pool(seed, 200);
@@ -331,7 +355,7 @@ pub fn run(ctx: &Ctx) -> (Stats, Report) {
     st.section("mixed_comparison_pairs", &mut mark);
 
     let rep = Report {
-        rule: "Differential / metamorphic, no reference model: for every date and every critical whole-second time of day, each of the 12 trunc and 12 round units is applied through Timestamp and OracleDate (and through Date at midnight) and the results must denote the same instant or all be errors; likewise last_day_of_month, +-16 month offsets, +-day-time intervals (Oracle result = timestamp result floored to the second), differences through all subtraction variants of the three types, and mixed-type ==, !=, <, <=, >, >=, partial_cmp in both argument orders against the comparison of the converted raw counts (structured neighbours +-1us/+-1s/+-1day/range ends/across 1970 for every date, plus boundary-pool x pool pairs). Non-trivial: every compared pair involves two independent code paths; distinct by enumeration / fingerprint.".into(),
+        rule: "Differential / metamorphic, no reference model: for every date and every critical whole-second time of day, each of the 12 trunc and 12 round units is applied through Timestamp and OracleDate (and through Date at midnight) and the results must denote the same instant or all be errors (also for every second of seven days before, at and after 1970); likewise last_day_of_month, +-16 month offsets, +-day-time intervals (Oracle result = timestamp result floored to the second), differences through all subtraction variants of the three types, and mixed-type ==, !=, <, <=, >, >=, partial_cmp in both argument orders against the comparison of the converted raw counts (structured neighbours +-1us/+-1s/+-1day/range ends/across 1970 for every date, plus boundary-pool x pool pairs). Non-trivial: every compared pair involves two independent code paths; distinct by enumeration / fingerprint.".into(),
         assumptions: vec!["independent of the C10/C11 oracles: holds in the presence of known finding K1, which the three types share".into()],
         exhaustive: true,
         extra: Default::default(),
